@@ -138,6 +138,8 @@ pub fn obs_of(r: &Result<Result<ResultAndState, EVMError<Infallible>>, String>) 
                 EmptyBlobs => (18, z, z), BlobCreateTransaction => (19, z, z), TooManyBlobs { have } => (20, U256::from(*have as u64), z),
                 BlobVersionNotSupported => (21, z, z), EofCrateShouldHaveToAddress => (22, z, z), AuthorizationListNotSupported => (23, z, z),
                 AuthorizationListInvalidFields => (24, z, z), EmptyAuthorizationList => (25, z, z),
+        #[cfg(feature = "optimism")]
+        InvalidTransaction::OptimismError(_) => (98, z, z),
             }
         }
         Ok(Err(_)) => (201, z, z),
